@@ -83,6 +83,42 @@ def run(P, R, tier):
     # ---- the score is bilinear: only linear array operations between the inputs and the result ------------------
     LINEAR_CALLS = {"array", "asarray", "asanyarray", "ascontiguousarray", "transpose", "tensordot", "dot", "einsum", "matmul", "reshape", "swapaxes", "moveaxis", "sum",
                     "stack", "vstack", "hstack", "concatenate", "expand_dims", "squeeze", "atleast_2d", "atleast_3d", "copy", "astype", "abs", "where", "isinstance", "hasattr", "len", "float", "list", "tuple", "logical_not", "moveaxis", "newaxis", "multiply", "subtract", "add", "divide", "true_divide", "ValueError"}
+    META_ATTRS = {"shape", "dtype", "ndim", "size", "flags", "itemsize", "nbytes", "strides", "chunks", "numblocks"}
+    META_FUNCS = {"type", "isinstance", "hasattr", "callable", "id", "issubclass"}
+
+    def metadata_only(call, g):
+        """The call looks only at what kind of array it is given (type, dtype, shape, memory layout), never at its values."""
+        fnm = call.func.attr if isinstance(call.func, ast.Attribute) else (call.func.id if isinstance(call.func, ast.Name) else None)
+        if fnm in META_FUNCS:
+            return True
+        gdu = get_defuse(g, P)
+
+        def meta(e, depth=0):
+            if isinstance(e, ast.Constant):
+                return True
+            if isinstance(e, (ast.Tuple, ast.List)):
+                return all(meta(x, depth) for x in e.elts)
+            if isinstance(e, ast.Attribute):
+                x = e
+                while isinstance(x, ast.Attribute):
+                    if x.attr in META_ATTRS:
+                        return True
+                    x = x.value
+                root = x
+                return isinstance(root, ast.Name) and root.id in ("np", "numpy", "da", "dask")
+            if isinstance(e, ast.Subscript):
+                return meta(e.value, depth)
+            if isinstance(e, ast.Name) and depth < 3:
+                try:
+                    rd = gdu.all_defs(e.id)
+                except Exception:
+                    rd = []
+                return bool(rd) and all(d.how in ("assign", "unpack") and d.value is not None and meta(d.value, depth + 1) for d in rd)
+            if isinstance(e, ast.Call):
+                return metadata_only(e, g)
+            return False
+        return all(meta(a) for a in call.args if not isinstance(a, ast.Starred)) and all(meta(k.value) for k in call.keywords) and not any(isinstance(a, ast.Starred) for a in call.args)
+
     for r in rets:
         rc = cone(du, r.value, r, interproc=False)
         for d in rc.defs:
@@ -107,6 +143,8 @@ def run(P, R, tier):
                         for y in walk_no_nested(t_[1].node):
                             if isinstance(y, ast.Call):
                                 fy = y.func.attr if isinstance(y.func, ast.Attribute) else (y.func.id if isinstance(y.func, ast.Name) else None)
+                                if fy not in LINEAR_CALLS and metadata_only(y, t_[1]):
+                                    continue
                                 R.check(fy in LINEAR_CALLS, "LINEAR.ops", KEY, f"{t_[1].qualname}: {src(y)[:50]}", "linear array operation", f"`{fy}` inside the helper {t_[1].qualname} is applied to a value the score is computed from and is not a linear array operation", y.lineno)
                 elif fn not in LINEAR_CALLS:
                     R.violation("LINEAR.ops", KEY, src(x)[:60], f"`{fn}` is applied to a value the score is computed from; the score must be a bilinear form of the model offset and the centred statistics (only reshaping, sums and products are linear)", x.lineno)
@@ -283,6 +321,12 @@ def run(P, R, tier):
                         exp2d = True
         if not exp2d:
             exp2d = any(isinstance(n_, ast.Call) and src(n_.func).split(".")[-1] in ("atleast_3d",) or (isinstance(n_, ast.Call) and any(kw.arg == "ndmin" and const_value(kw.value) == 3 for kw in n_.keywords)) for n_ in walk_no_nested(g_.node))
+    # decided by the shape analysis when it can type the call with a (C, D) array as the models: the scores have one row
+    from ..engines import dimrun as _dr2
+    _obs2, _rets2 = _dr2.run_roots(P, ["ls.model2d"])
+    _r2 = _rets2.get(("ls.model2d", None))
+    if _r2 is not None and _r2.is_numlike and _r2.sh is not None:
+        exp2d = len(_r2.sh) == 2 and _r2.sh[0] == "1"
     R.check(exp2d, "NORM.models-2d", KEY, f"{models}: (C, D) -> (1, C, D)", "a single model gives one row of scores", "a single model given as a (n_gaussians, n_features) array is no longer expanded to one row: its Gaussians are scored as separate models")
     from ..engines import dtype as _dt
     _dt.check_function(P, R, KEY, raw_attrs=("n", "sum_px", "sum_pxx"))
@@ -291,3 +335,4 @@ def run(P, R, tier):
 
 
 EXPLANATION += ' Also: (LINEAR) no selective overwrite or non-linear operation on values the score is computed from, other than the zero-frame guard; (NORM.models-2d) a single (C, D) model becomes one row; the MAP -> prior replacement happens exactly for MAP machines; the frame guard is decided from which np.where arm is taken for empty statistics, however mask and quotient are spelled; helpers that compute the two factors are looked into.'
+EXPLANATION += ' (LINEAR.ops) calls that only look at array metadata are not value operations; (DIM.ARMS) both arms of a run-time switch give a value the same dimension.'
